@@ -299,6 +299,9 @@ pub fn c09() -> SchedCampaign {
     SchedCampaign {
         prop: "C09",
         families: vec![
+            // a retry that swaps written locations without growing its write set (in C09 terms: an
+            // authorisation accepted only on retry) - the generic shape of it
+            Family { weight: 2, params: pointer_family() },
             Family {
                 weight: 6,
                 params: GenParams {
